@@ -10,6 +10,7 @@ Driver for C45. Records per case:
   res file <hexbytes> | res archive | res err <hexmsg> | res panic
   ent <hexname> <reg|dir|symlink|other> <mode> <hexlink> <size> <hexdata>   archive members, in order
   archive-error <hexmsg>           the harness could not read the archive back
+  adv <connections> <nblobs>       adversarial loader used (later downloads overtake earlier ones)
 -/
 open Driver Driver.TreeWire Restic.Model.SnapTree Restic.Model.Dump
 
@@ -65,7 +66,9 @@ def handleC45 (c : Case) : Verdict :=
       (if allNodes.any (fun n => n.type == .symlink) then ["symlink"] else []) ++
       (if allNodes.any (fun n => !(dumpable n.type)) then ["special"] else []) ++
       (if hasSpecialTop then ["special-at-top"] else []) ++
-      (if allNodes.any (fun n => tarMode n.mode ≥ 512) then ["suid-sgid-sticky"] else [])
+      (if allNodes.any (fun n => tarMode n.mode ≥ 512) then ["suid-sgid-sticky"] else []) ++
+      (match c.find "adv" with | some r => [s!"adversarial-loader-conns{r.getD 1 "?"}"] | none => []) ++
+      (if allNodes.any (fun n => n.type == .file && n.content.length ≥ 8) then ["many-blobs"] else [])
     match kind with
     | "file" =>
       let got := bytesOf (r.getD 2 "-")
